@@ -29,6 +29,10 @@ RULE = ("12 generator slots per round (250 rounds quick, 1200 thorough): route-t
         "removeoverlaps-twice (all centres distinct), removeoverlaps-coincident (groups of rectangles sharing a centre), route-translate, "
         "route-symmetry polyline, route-symmetry orthogonal (all 7 non-trivial symmetries per scene), vpsc-translate, vpsc-permute "
         "(route-translate on orthogonal scenes carries the tag route-translate-orth), and route-symmetry-dirs: orthogonal scenes with DIRECTION-RESTRICTED ends, ConnDirFlags transformed with the frame, cost and axis-parallelism compared over the 8 frames (two rounds in three strict: one free end at / 1-2 units beyond the extreme min/max x or y of the whole scene looking outward only, or one pin at the midpoint of the shape side that is the scene boundary, buffer 0; one round in three tag route-symmetry-dirs-any: arbitrary restrictions, several pins, counted only). "
+        "After these and the class cmp, own index ranges: route-symmetry-params (320 quick / 1500 thorough) and route-translate-params (160 / 800): EVERY public RoutingParameter "
+        "(segment, angle, crossing, clusterCrossing, fixedSharedPath, portDirection penalties, shapeBufferDistance 0..4, idealNudgingDistance, reverseDirectionPenalty 1/2..500; dyadic values) "
+        "non-default with probability 1/3..2/3 each, every RoutingOption flipped with probability 1/3; obstacles = rectangles and bars with arms (L/U/T/S pockets, overlapping pieces) in a random "
+        "one of 8 orientations; connector ends exactly aligned on one axis, across an obstacle from each other, on (buffered) shape-edge lines, shared between connectors. "
         "Scenes: 1-7 (thorough: up to 14) integer rectangles in grid cells, 1-7 connectors with ends on cell-border lines, segmentPenalty in "
         "{0,1,3,10,50}, shapeBufferDistance 0 or 1/2, "
         "optionally a shape move + second transaction. Between run A and run B of every *-twice case: heap scrambling, an unrelated router, an unrelated VPSC solve and unrelated libcola work touching process-global state (ConstrainedFDLayout with makeFeasible() default / non-default non-zero / one-sided borders + run(), overlap avoidance, cluster hierarchy; ConstrainedMajorizationLayout with overlap avoidance; removeoverlaps with fixed set and third pass); the static vpsc::Rectangle::xBorder/yBorder before and after each run are compared as extra observables. A *-twice case is non-trivial if the two runs saw different heap address "
@@ -47,7 +51,11 @@ EXPLANATION = ("(A) Logic half, Lean theorems for all inputs (Props/C20.lean): t
                "of variable/constraint order; the scan-line order is independent of address ranks when centres are distinct. "
                "(B) Runtime half, observed: every case is executed twice in one process with heap scrambling and unrelated work in "
                "between (bit-identity of routes, solver positions, removeoverlaps; layouts to 1e-9), translated by multiples of 2^-10, "
-               "under the 7 non-trivial symmetries (costs) and with permuted VPSC input order. Determinism itself is sampled, not proved.")
+               "under the 7 non-trivial symmetries (costs) and with permuted VPSC input order. Determinism itself is sampled, not proved. "
+               "The reverse-direction rule of cost() (sign of the source->destination displacement per axis, penalty for an edge heading against it) is modelled and "
+               "proved invariant under all 8 symmetries and translations for all displacements, zero components included (reverse_direction_rule_frame_invariant, "
+               "path_costs_frame_invariant, optimal_orth_path_cost_frame_invariant; reverse_rule_guard_matters shows the variant with a wrong guard is not); the driver evaluates "
+               "the model on the real search's vertex paths in the 8 frames of scenes with all routing parameters / options set and exactly aligned end points.")
 
 def regenerate(ROOT, REPO):
     """the comparators handed to std::set / std::sort / list::sort / the pairing heap are regenerated from the C++ by
